@@ -67,10 +67,10 @@ def gen_cases(tier, seed):
     # many positive charges in one call (a grid of charges): every slice must still be negative semi-definite
     for i, N in enumerate((300, 1100) if tier == "quick" else (300, 520, 1100, 2600, 4200)):
         rng = bases.rng_for("C17", seed, tier, "many", N)
-        ls = [[0, 1, 2], [1, 2], [2, 0, 1, 1]][i % 3]
+        ls = [[2, 1, 0], [2, 1], [1, 0, 2, 1]][i % 3]  # descending and mixed orders of angular momentum
         tp = list(bases.type_patterns(len(ls))[(i * 3 + 1) % len(bases.type_patterns(len(ls)))])
-        shells, classes = bases.rand_basis(rng, ls, types=tp, emin=0.1, emax_fn=lambda l: 20.0, Kmax=3, Mmax=2, scale=1.2)
-        pts = (rng.normal(size=(N, 3)) * 2.0).tolist()
+        shells, classes = bases.rand_basis(rng, ls, types=tp, emin=0.5, emax_fn=lambda l: 20.0, Kmax=3, Mmax=2, scale=0.6)
+        pts = (rng.normal(size=(N, 3)) * 1.2).tolist()  # charges inside the functions, where the Schwarz bound is nearly attained
         q = [float(x) for x in np.exp(rng.uniform(np.log(0.1), np.log(100), size=N))]
         cases.append({"shells": shells, "points": pts, "charges": q, "eri": False, "classes": classes + ["1e", "many-charges:%d" % N, "nsh:%d" % len(ls), "types:" + "".join(tp)], "cost": 200 + N})
     return cases
@@ -150,4 +150,4 @@ def run_case(case):
                 at = np.unravel_index(int(np.argmax(exc)), exc.shape)
                 viols.append(cm.viol("(ab|cd)^2 = %.6e exceeds (ab|ab)(cd|cd) = %.6e" % (G[at] ** 2, d[at[0]] * d[at[1]]), "schwarz", worst / sc ** 2, 0.0))
     nontrivial = len(shells) >= 2 and (not case["eri"] or sum(s["l"] for s in shells) >= 1)
-    return {"evals": evals, "nontrivial": bool(nontrivial), "classes": case["classes"], "errs": errs, "violations": viols}
+    return {"evals": evals, "nontrivial": bool(nontrivial), "classes": case["classes"], "errs": errs, "violations": viols[:25]}
